@@ -437,3 +437,12 @@ Definition with_policy (i : input) (stores : list string) (o : tsopt)
            (db : list (string * sres)) (k : token) : input :=
   mk_input (i_now i) (i_scheme i) (i_sigtime i) (i_expiry i) (i_chain i) stores o
            db k (i_aexp i) (i_ats i).
+
+(* ---------- a concrete state used by the Examples of props/C06_Property.v ----------
+   leaf expired 36000 s ago, root valid; afterCertExpiry; tsa store "a" holds a
+   certificate; token issued 72000 s ago with 1 s accuracy by a trusted,
+   well-formed, unrevoked TSA *)
+Definition ex_tok : token := mk_token true true true true (-72000) 1 true true (VRes [ROK; ROK]).
+Definition ex_in (stores : list string) (k : token) : input :=
+  mk_input 0 X509 (-80000) None [mk_cert (-360000) (-36000); mk_cert (-360000) 360000]
+           stores OptAfterCertExpiry [("a", SCerts)] k Enforce Enforce.
